@@ -301,4 +301,24 @@ def edgeEdge3 (basis : V3 K → V3 K × V3 K) (ulps : K → K → Bool) (pos12 :
       [Contact3.flipped lp1 (pos12.invAct lp21) ((lp21.sub lp1).dot sep) flipped]
   | _, _ => edgeEdgeClip3 pos12 e1a e1b v2a v2b sep flipped
 
+/-! ## `contact_manifold_pfm_pfm` after the GJK call, for two edge features
+
+The part of `contact_manifold_pfm_pfm` that follows `GJKResult::ClosestPoints(p1, p2_1, dir)` when both support features are
+edges and there are no normal constraints: `local_n2 = pos12⁻¹(−dir)`, the feature contacts along `dir`, the extra GJK contact
+(always pushed in 3-D), then the border-radius adjustment.  The GJK result and the two support features are inputs. -/
+
+/-- `contact.local_p1 += n1 * br1; contact.local_p2 += n2 * br2; contact.dist -= br1 + br2` -/
+def applyBorder3 (n1 n2 : V3 K) (br1 br2 : K) (c : Contact3 K) : Contact3 K :=
+  ⟨c.p1.add (n1.smul br1), c.p2.add (n2.smul br2), c.dist - (br1 + br2)⟩
+
+def pfmPfmEdgeGiven (basis : V3 K → V3 K × V3 K) (ulps : K → K → Bool) (pos12 : Iso3 K) (p1 p21 dir : V3 K)
+    (e1a e1b e2a e2b : V3 K) (br1 br2 : K) : Manifold3 K :=
+  let n1 := dir
+  let n2 := pos12.invRot dir.neg
+  let pts := edgeEdge3 basis ulps pos12 e1a e1b e2a e2b n1 false
+  let pts := pts ++ [⟨p1, pos12.invAct p21, (p21.sub p1).dot n1⟩]
+  -- `if border_radius1 != 0.0 || border_radius2 != 0.0`
+  let pts := if neq br1 0 && neq br2 0 then pts else pts.map (applyBorder3 n1 n2 br1 br2)
+  ⟨pts, n1, n2⟩
+
 end C14
